@@ -31,6 +31,32 @@ var scripted = []scenario{
 }
 
 func init() {
+	scenarios["faults"] = func(t *testing.T, seed int64) *World {
+		cfg := DefaultConfig()
+		cfg.Unbonding = 4 * 3600
+		cfg.ConsUnbonding = 3 * 3600
+		cfg.CCVTimeout = 3 * 3600
+		cfg.BlocksPerEpoch = 2
+		w := NewWorld(t, cfg)
+		w.rec.Start()
+		w.rec.emit("p", "Scenario", map[string]any{"name": "faults", "variant": int(seed)}, nil, nil)
+		w.Block("p", 5, nil)
+		scFaults(t, w, int(seed))
+		return w
+	}
+	scenarios["rewards"] = func(t *testing.T, seed int64) *World {
+		cfg := DefaultConfig()
+		cfg.Unbonding = 4 * 3600
+		cfg.ConsUnbonding = 3 * 3600
+		cfg.BlocksPerEpoch = int64(1 + seed%2)
+		cfg.EpochsToReward = int64(seed % 3)
+		w := NewWorld(t, cfg)
+		w.rec.Start()
+		w.rec.emit("p", "Scenario", map[string]any{"name": "rewards", "variant": int(seed)}, nil, nil)
+		w.Block("p", 5, nil)
+		scRewards(t, w, int(seed))
+		return w
+	}
 	scenarios["scripted"] = func(t *testing.T, seed int64) *World {
 		sc := scripted[int(seed)%len(scripted)]
 		cfg := DefaultConfig()
@@ -53,6 +79,12 @@ func (w *World) now() int64 { return w.secs(w.Now) }
 func (w *World) quickConsumer(chain string, rev int, vals []string, extra map[string]any) string {
 	a := map[string]any{"a": "CreateConsumer", "sender": "o1", "chain": chain, "init": map[string]any{"initRev": rev, "spawn": w.now() + 30}}
 	for k, v := range extra {
+		if k == "init" {
+			for ik, iv := range v.(map[string]any) {
+				a["init"].(map[string]any)[ik] = iv
+			}
+			continue
+		}
 		a[k] = v
 	}
 	br := w.Block("p", 5, nil, a)
@@ -437,4 +469,155 @@ func scHandshake(t *testing.T, w *World, variant int) {
 	w.Block(c1, 5, nil, map[string]any{"a": "RelayTo", "n": 5})
 	w.Block(c0, 5, nil)
 	w.Block(c1, 5, nil)
+}
+
+// ---------------------------------------------------------------------------------------
+// fault enumeration (C19): a failure injected at an external-module call inside launch / deletion / sending,
+// in every position of a three-consumer block
+
+var failpoints = []string{
+	"Launch:ComputeConsumerNextValSet", "Launch:SetConsumerGenesis", "Launch:CreateConsumerClient",
+	"Delete:AfterGenesis", "Delete:AfterCleanup", "SendVSC:SendIBCPacket",
+}
+
+func scFaults(t *testing.T, w *World, variant int) {
+	fp := failpoints[variant%len(failpoints)]
+	pos := (variant / len(failpoints)) % 3
+	// three consumers due in the same block
+	spawn := w.now() + 60
+	var txs []map[string]any
+	for i := 0; i < 3; i++ {
+		txs = append(txs, map[string]any{"a": "CreateConsumer", "sender": []string{"o1", "o2", "u1"}[i], "chain": fmt.Sprintf("f%d-1", i),
+			"init": map[string]any{"initRev": 1, "spawn": spawn}})
+	}
+	w.Block("p", 5, nil, txs...)
+	w.Block("p", 5, nil, map[string]any{"a": "OptIn", "v": "v1", "c": "c0"}, map[string]any{"a": "OptIn", "v": "v2", "c": "c1"}, map[string]any{"a": "OptIn", "v": "v3", "c": "c2", "key": "k2"})
+	w.Block("p", 5, nil, map[string]any{"a": "OptIn", "v": "v2", "c": "c0"}, map[string]any{"a": "OptIn", "v": "v3", "c": "c1"}, map[string]any{"a": "OptIn", "v": "v1", "c": "c2"})
+	arm := func(kind string) {
+		if len(fp) >= len(kind) && fp[:len(kind)] == kind {
+			w.failAt[fp] = pos
+			w.rec.emit("p", "Arm", map[string]any{"point": fp, "skip": pos}, nil, nil)
+		}
+	}
+	arm("Launch")
+	for i := 0; i < 8; i++ {
+		w.Block("p", 15, nil)
+	}
+	delete(w.failAt, fp)
+	names := []string{}
+	for _, c := range []string{"c0", "c1", "c2"} {
+		if phaseNames[w.P.PApp.ProviderKeeper.GetConsumerPhase(w.P.GetContext(), consIDOf(c))] == "launched" {
+			names = append(names, c)
+		}
+	}
+	for _, c := range names {
+		w.StartConsumer(c)
+		if err := w.Connect(c); err == nil {
+			w.OpenChannel(c, w.defaultChanCfg(c))
+		}
+	}
+	// a validator-set change is queued for every consumer; sending fails for one of them
+	arm("SendVSC")
+	w.Block("p", 5, nil, map[string]any{"a": "Delegate", "v": "v1", "amt": 1000000}, map[string]any{"a": "Delegate", "v": "v3", "amt": 2000000})
+	for i := 0; i < 4; i++ {
+		w.Block("p", 5, nil)
+	}
+	delete(w.failAt, fp)
+	for _, c := range names {
+		w.Block(c, 5, nil, map[string]any{"a": "RelayTo", "n": 5})
+		w.Block(c, 5, nil)
+	}
+	// all owners remove their consumers in one block; the deletions fall due together
+	var rm []map[string]any
+	for i, c := range []string{"c0", "c1", "c2"} {
+		rm = append(rm, map[string]any{"a": "RemoveConsumer", "sender": []string{"o1", "o2", "u1"}[i], "c": c})
+	}
+	w.Block("p", 5, nil, rm...)
+	for i := 0; i < 6; i++ {
+		w.Block("p", 1800, nil)
+		for _, c := range names {
+			w.keepAlive(c)
+		}
+	}
+	arm("Delete")
+	for i := 0; i < 4; i++ {
+		w.Block("p", 1800, nil)
+	}
+	delete(w.failAt, fp)
+	w.Block("p", 5, nil)
+}
+
+// ---------------------------------------------------------------------------------------
+// rewards (C16): fees on consumers, split, transmission, crediting, allocation on the provider
+
+func scRewards(t *testing.T, w *World, variant int) {
+	frac := []string{"0.75", "0.25", "0.00", "1.00"}[variant%4]
+	bpdt := int64(1 + variant%3)
+	mk := func(chain string, vals []string) string {
+		return w.quickConsumer(chain, 1, vals, map[string]any{"init": map[string]any{"initRev": 1, "spawn": w.now() + 30, "frac": frac, "bpdt": bpdt}})
+	}
+	c0 := mk("rw-1", []string{"v1", "v2"})
+	c1 := mk("rx-1", []string{"v2", "v3"})
+	for _, c := range []string{c0, c1} {
+		w.StartConsumer(c)
+		if err := w.Connect(c); err != nil {
+			t.Logf("connect %v", err)
+			return
+		}
+		if _, err := w.OpenChannel(c, w.defaultChanCfg(c)); err != nil {
+			t.Logf("channel %v", err)
+			return
+		}
+		if err := w.CompleteTransferChannel(c); err != nil {
+			t.Logf("transfer channel %s: %v", c, err)
+		}
+		w.ConsumerGovExec(c, []string{"stake", "photon"}[:1+variant%2], nil)
+	}
+	// denoms: the voucher of c0's stake is registered by governance, c1's stake voucher is allow-listed by its owner
+	d0 := w.VoucherDenom(c0, "stake")
+	d1 := w.VoucherDenom(c1, "stake")
+	w.GovExec(map[string]any{"a": "ChangeRewardDenoms", "add": []string{d0}})
+	w.Block("p", 5, nil, map[string]any{"a": "UpdateConsumer", "sender": "o1", "c": c1, "denoms": []string{d1}})
+	w.Block("p", 5, nil, map[string]any{"a": "SetCommission", "v": "v2", "c": c0, "rate": "0.500000000000000000"})
+	// both consumers need their first validator-set packet before they accept ordinary transactions
+	w.Block("p", 5, nil, map[string]any{"a": "Delegate", "v": "v2", "amt": 1000000})
+	for i := 0; i < 3; i++ {
+		w.Block("p", 5, nil)
+	}
+	for _, c := range []string{c0, c1} {
+		w.Block(c, 5, nil, map[string]any{"a": "RelayTo", "n": 3})
+	}
+	allocFPs := []string{"Allocate:GetCommunityTax", "Allocate:SendCoinsFromModuleToModule", "Allocate:AllocateTokensToConsumerValidators", "Allocate:FundCommunityPool"}
+	amts := []int64{1, 3, 4, 7, 10, 101, 999, 1000}
+	for round := 0; round < 6; round++ {
+		for ci, c := range []string{c0, c1} {
+			var txs []map[string]any
+			txs = append(txs, map[string]any{"a": "Fees", "denom": "stake", "amt": amts[(round*2+ci+variant)%len(amts)]})
+			if (round+variant)%2 == 0 {
+				txs = append(txs, map[string]any{"a": "Fees", "denom": "photon", "amt": amts[(round+ci)%len(amts)]})
+			}
+			txs = append(txs, map[string]any{"a": "RelayTo", "n": 3})
+			w.Block(c, 5, nil, txs...)
+			w.Block(c, 5, nil)
+		}
+		// the validator set of c0 changes between crediting and payout
+		if round == 2 {
+			w.Block("p", 5, nil, map[string]any{"a": "OptIn", "v": "v3", "c": c0}, map[string]any{"a": "OptOut", "v": "v1", "c": c0})
+		}
+		w.Block("p", 5, nil, map[string]any{"a": "RelayTo", "c": c0, "n": 3, "port": "transfer"}, map[string]any{"a": "RelayTo", "c": c1, "n": 3, "port": "transfer"})
+		if variant >= 12 && round >= 1 && round <= 3 {
+			// an external call fails inside one (consumer, denom) allocation of the next block
+			fp := allocFPs[variant%len(allocFPs)]
+			w.failAt[fp] = (variant / 4) % 2
+			w.rec.emit("p", "Arm", map[string]any{"point": fp, "skip": (variant / 4) % 2}, nil, nil)
+		}
+		w.Block("p", 5, nil)
+		for _, fp := range allocFPs {
+			delete(w.failAt, fp)
+		}
+		w.Block("p", 5, nil, map[string]any{"a": "Delegate", "v": "v1", "amt": 1000000})
+		w.Block(c0, 5, nil, map[string]any{"a": "AckTo", "n": 3, "port": "transfer"})
+		w.Block(c1, 5, nil, map[string]any{"a": "AckTo", "n": 3, "port": "transfer"})
+	}
+	w.Block("p", 5, nil)
 }
